@@ -5,11 +5,15 @@
 # project's unit tests of the touched crate(s) pass, demo FAILS.  Writes /tmp/seed/out/<ID>/confirm.log.
 ID=$1
 WT=/tmp/seed/$ID; OUT=/tmp/seed/out/$ID
-if [ -d /tmp/seed/target-$ID ]; then export CARGO_TARGET_DIR=/tmp/seed/target-$ID; else export CARGO_TARGET_DIR=/tmp/seed/target; fi; export CARGO_NET_OFFLINE=true RUST_BACKTRACE=0
+export CARGO_TARGET_DIR=${SEED_TARGET:-/tmp/seed/target-confirm}; export CARGO_NET_OFFLINE=true RUST_BACKTRACE=0
+[ -d $WT ] || git -C /repo worktree add --detach $WT HEAD >/dev/null 2>&1
 cd $WT || exit 2
+mkdir -p $OUT; [ -f $OUT/patch.diff ] || cp /verif/seeded/$ID/patch.diff /verif/seeded/$ID/demo.diff /verif/seeded/$ID/meta.json $OUT/
 LOG=$OUT/confirm.log; : > $LOG
 git checkout -q -- . && git clean -fdq -e target
 DEMO=$(python3 -c "import json;print(json.load(open('$OUT/meta.json'))['demo_cmd'])")
+# the demonstration must use THIS run's target dir, not the one its author used
+DEMO=$(echo "$DEMO" | sed -E 's#CARGO_TARGET_DIR=[^ ]+ ?##g; s#cd /tmp/seed/[A-Z0-9]+ *&& *##')
 echo "demo_cmd: $DEMO" >> $LOG
 git apply $OUT/demo.diff || { echo "demo.diff does not apply" >> $LOG; exit 1; }
 touch src/lib.rs crates/ordinals/src/lib.rs crates/mockcore/src/lib.rs; ( eval "$DEMO" ) > $OUT/demo_clean.out 2>&1; echo "demo on clean tree: rc=$?" >> $LOG
@@ -24,3 +28,4 @@ if git diff --stat | grep -q "crates/ordinals"; then
 fi
 cargo test --offline --lib > $OUT/tests_lib.out 2>&1; echo "cargo test --lib (ord) with patch: rc=$? $(grep '^test result' $OUT/tests_lib.out | head -1)" >> $LOG
 cat $LOG
+rm -rf /tmp/seed/target-$ID
